@@ -29,6 +29,8 @@ KIND_WRITERS = {
 }
 
 
+META["explanation"] += " " + '(PTR-follow, shared by C08 and C12) sibling cross-check over every delegation `value_->m(...)` in the public members of Value: the member asked of the pointee follows pointers itself (it reads value_) or is the caller; the Is...() predicates asked the one-level private tests.'
+
 def run(ctx):
     m = ctx.pattern()
     rules = []
@@ -258,4 +260,6 @@ def run(ctx):
     rules.append(r)
     from rules.common import rule_flush_first
     rules.append(rule_flush_first(ctx, m, "Qentem::JSONUtils::Escape"))
+    from rules.common import rule_pointer_follow
+    rules.append(rule_pointer_follow(ctx, m))
     return rules
